@@ -96,7 +96,10 @@ class Harness:
         H.mp = _FakeMP(self)
         self._orig_mkdtemp = tempfile.mkdtemp
         H.tempfile = _FakeTempfile(self)
-        self.words = ['w%d' % i for i in range(8)]
+        # package names of one batch are drawn in sorted order: (art, ear), (heart, near), (oat, ox), (throat, tox) --
+        # each name of a program is a proper suffix of the corresponding name of the next one, so that any matching of
+        # compiler-reported paths by suffix or substring instead of by path confuses two programs of a batch
+        self.words = ['art', 'ear', 'heart', 'near', 'oat', 'ox', 'throat', 'tox']
         utils.random.r = _WordChooser(self)
         self.scenario = None
         self.prefix = []
